@@ -64,7 +64,7 @@ CHECKS = {
     },
     "C09": {
         "category": "proof",
-        "text": "PARTIAL proof. Proved in Coq (abstract device): at every protocol state -- hence at the state where a device call fails -- every crash image and the device as it stands recover to the contents before or after the transaction in flight and never to anything older than the last acknowledgement; a failed write-before or fsync changes no crash image; whatever part of a journaled batch reached the device is contained in the journaled extents (so it can be scrubbed, and is wiped by replay). Also proved: the scrub of a failed batch whose intent is durable (journal ACTIVE again in the other slot, markers, clear) is restartable at every point and recovers, from the failure to its end, exactly the cells the batch found. Also proved, over Model/FailPath.v (the failure-handling code itself: process_write_batch, failed_batch_outcome, cleanup_failed_allocations, release_scrubbed_allocations, release_allocations, quarantine, poison, on top of the real allocator model), for every choice of failing device calls and every sequence of inserts and flushes: a flush answers Ok only when the device is not poisoned and every queued entry has been published; no entry is ever lost (all published or all still queued, in order); a poisoned device never answers Ok again; a quarantined reservation stays with its entry; extents that may hold bytes of a failed batch are never free unless scrubbed. Tie: T-eq of that model against the real write path with the coordinator paused (hook H11), calls failed by plan, comparing result class, allocator statistics, usage counter, published sectors and the number of device calls after every flush. The model also carries deletes of published records and their retirement (journal, markers, clear, one release per group of adjacent extents; a failed retirement poisons the device) and the reclaim-and-retry of a pass the allocator refused, with the same theorems (flush_with_deletes_is_honest). The clause that a failure never destroys the last durable generation of a key rests, for retirements of superseded generations, on the retirement gate proved over Model/Gate.v (see C02). NOT proved: error propagation across several workers/shards, the io_uring completion path (its IndeterminateWrite outcomes), retirements gated by readers or undurable successors, healing. Those are decided by execution: fault injection at every device call (before/after), pairs, persistent and healing failures on the real store with the Coq monitor accepting each faulted history and an oracle for acknowledgement windows, reads during failure, no hang/death, and flush success after healing.",
+        "text": "PARTIAL proof. Proved in Coq (abstract device): at every protocol state -- hence at the state where a device call fails -- every crash image and the device as it stands recover to the contents before or after the transaction in flight and never to anything older than the last acknowledgement; a failed write-before or fsync changes no crash image; whatever part of a journaled batch reached the device is contained in the journaled extents (so it can be scrubbed, and is wiped by replay). Also proved: the scrub of a failed batch whose intent is durable (journal ACTIVE again in the other slot, markers, clear) is restartable at every point and recovers, from the failure to its end, exactly the cells the batch found. Also proved, over Model/FailPath.v (the failure-handling code itself: process_write_batch, failed_batch_outcome, cleanup_failed_allocations, release_scrubbed_allocations, release_allocations, quarantine, poison, on top of the real allocator model), for every choice of failing device calls and every sequence of inserts and flushes: a flush answers Ok only when the device is not poisoned and every queued entry has been published; no entry is ever lost (all published or all still queued, in order); a poisoned device never answers Ok again; a quarantined reservation stays with its entry; extents that may hold bytes of a failed batch are never free unless scrubbed. Tie: T-eq of that model against the real write path with the coordinator paused (hook H11), calls failed by plan, comparing result class, allocator statistics, usage counter, published sectors and the number of device calls after every flush. The model also carries deletes of published records and their retirement (journal, markers, clear, one release per group of adjacent extents; a failed retirement poisons the device) and the reclaim-and-retry of a pass the allocator refused, with the same theorems (flush_with_deletes_is_honest). The clause that a failure never destroys the last durable generation of a key rests, for retirements of superseded generations, on the retirement gate proved over Model/Gate.v (see C02). NOT proved: error propagation across several workers/shards, the io_uring completion path (its IndeterminateWrite outcomes), retirements gated by readers or undurable successors, healing. Those are decided by execution: fault injection at every device call (before/after), pairs, persistent and healing failures on the real store with the Coq monitor accepting each faulted history and an oracle for acknowledgement windows, reads during failure, no hang/death, and flush success after healing. Over Model/FailBatches.v (the pass cut into batches of the journal's entry limit, stopping at the first failing batch and requeueing the rest): for any queue length and any fault oracle flush answers Ok only when nothing is left and the device is not poisoned, and every queued entry is afterwards published or still queued, none lost and none counted twice.",
         "note": TRUST + " Fault model A4 (fail-stop; failed fsync = writes stay un-synced). io_uring-path faults are not injected.",
         "design": "DESIGN.md section 5 C09",
     },
